@@ -318,7 +318,10 @@ func (g *progGen) draw(vars *[]int) *Stmt {
 	return &Stmt{K: SDraw, Var: v, Gen: g.genSpec(0), Label: label}
 }
 
-var regexCatalogue = []string{`[a-c]{0,4}`, `x+y?`, `\d{1,3}`, `(ab|cd)*`, `[[:alpha:]]{2}`}
+// The last two are different character classes whose printed forms share a long prefix (cache keys must not confuse them).
+var regexCatalogue = []string{`[a-c]{0,4}`, `x+y?`, `\d{1,3}`, `(ab|cd)*`, `[[:alpha:]]{2}`,
+	`[\x{100}-\x{10f}\x{120}-\x{12f}\x{140}-\x{14f}\x{160}-\x{16f}\x{180}-\x{18f}\x{1a0}-\x{1af}\x{1c0}-\x{1cf}a-c]{1,3}`,
+	`[\x{100}-\x{10f}\x{120}-\x{12f}\x{140}-\x{14f}\x{160}-\x{16f}\x{180}-\x{18f}\x{1a0}-\x{1af}\x{1c0}-\x{1cf}x-z]{1,3}`}
 
 func (g *progGen) intSpec(depth int) *GenSpec {
 	t := g.t
